@@ -1,10 +1,13 @@
 """Implementation driver for C01 C03 C04 C05: the real Receiver.listen() under the virtual-time loop.
 
-case = dict(A, P, N, wtt_us, stop_us, ends, horizon_us, ack_type, msgs=[dict(at, kind, style, dur, out, ack,
-            pre_fail, post_fail, save_fail, psave_fail, onerr_fail, fail_exc (error | cancel | base), fail_after_us, tlabel_us, cleanup_us, payload (byte values of a malformed message))])       (all instants / durations in integer microseconds,
+case = dict(A, P, N, wtt_us, stop_us, ends, horizon_us, ack_type, msgs=[dict(at, kind, style, dur, out,
+            ack (none | sync | async | future | task | awaitobj | gencoro: what the ack callable is / returns), ack_us (the
+            acknowledgement completes that much later), hook_aw = dict(where: pre | post | post_save | on_error, style, us) (a
+            middleware hook that is a plain function returning a non-coroutine awaitable), pre_fail, post_fail, save_fail, psave_fail, onerr_fail, fail_exc (error | cancel | base), fail_after_us, tlabel_us, cleanup_us, payload (byte values of a malformed message))])       (all instants / durations in integer microseconds,
             dur = -1: never ends)
 observation = dict(raw=[[t_us, tag, a, b], ...], lts=[Coq event literals], cut, returned)"""
 import asyncio
+import types
 
 import shims
 import vloop
@@ -77,6 +80,49 @@ def run_case(sc, opts):
                     await asyncio.sleep(d / 1e6)
             fail(i, what)
 
+        def awaitable(style, d, done, result=None):
+            """what an ack callable / a hook hands back: it completes d us after the call (`done()` is called at that
+            instant) and gives `result`.  async = coroutine object; the others are awaitables that are NOT coroutine objects:
+            future = asyncio.Future resolved by a timer (the shape of loop.run_in_executor / a client library's future),
+            task = asyncio.ensure_future(coroutine), awaitobj = object with __await__ (the work only runs when awaited),
+            gencoro = generator-based coroutine (types.coroutine)"""
+            async def work():
+                if d:
+                    await asyncio.sleep(d / 1e6)
+                done()
+                return result
+
+            if style == "async":
+                return work()
+            if style == "future":
+                fut = loop.create_future()
+
+                def fin():
+                    if not fut.done():
+                        done()
+                        fut.set_result(result)
+
+                if d:
+                    loop.call_later(d / 1e6, fin)
+                else:
+                    fin()
+                return fut
+            if style == "task":
+                return asyncio.ensure_future(work())
+            if style == "awaitobj":
+                class Later:
+                    def __await__(self):
+                        return work().__await__()
+
+                return Later()
+            if style == "gencoro":
+                @types.coroutine
+                def gen():
+                    return (yield from work().__await__())
+
+                return gen()
+            raise AssertionError("scenario: unknown awaitable style %r" % (style,))
+
         class RB(AsyncResultBackend):
             async def set_result(self, tid, r):
                 i = int(tid)
@@ -119,11 +165,37 @@ def run_case(sc, opts):
                 if sc["msgs"][i].get("onerr_fail"):
                     fail(i, "hook")
 
+        class Hooks3(TaskiqMiddleware):
+            """hooks that are plain functions handing back a non-coroutine awaitable (a future of off-loaded work) for the
+            messages that ask for it (hook_aw), nothing otherwise; only installed for scenarios that use it"""
+
+            def _h(self, where, m, result):
+                h = sc["msgs"][int(m.task_id)].get("hook_aw")
+                if not h or h["where"] != where:
+                    return result
+                i = int(m.task_id)
+                log.add("hook.aw", i, where)
+                return awaitable(h["style"], h.get("us", 0), lambda: log.add("hook.aw.end", i, where), result)
+
+            def pre_execute(self, m):
+                return self._h("pre", m, m)
+
+            def post_execute(self, m, r):
+                return self._h("post", m, None)
+
+            def post_save(self, m, r):
+                return self._h("post_save", m, None)
+
+            def on_error(self, m, r, exc):
+                return self._h("on_error", m, None)
+
         br = B()
         br.result_backend = RB()
         br.add_middlewares(Hooks())
         if any(m.get("psave_fail") or m.get("onerr_fail") for m in sc["msgs"]):
             br.add_middlewares(Hooks2())
+        if any(m.get("hook_aw") for m in sc["msgs"]):
+            br.add_middlewares(Hooks3())
 
         def finish(i, out):
             if out == "raise":
@@ -177,11 +249,22 @@ def run_case(sc, opts):
                                                         args=[i, m["dur"], m["out"]], kwargs={})).message
             ids[bytes(data)] = i
             ack = m.get("ack", "none")
+            # `ack` is logged when the ack callable is invoked, `ack.end` when the acknowledgement has COMPLETED
             if ack == "sync":
-                wire = AckableMessage(data=data, ack=lambda i=i: log.add("ack", i))
-            elif ack == "async":
+                def _ack(i=i):
+                    log.add("ack", i)
+                    log.add("ack.end", i)
+                wire = AckableMessage(data=data, ack=_ack)
+            elif ack == "async" and not m.get("ack_us"):
                 async def _ack(i=i):
                     log.add("ack", i)
+                    log.add("ack.end", i)
+                wire = AckableMessage(data=data, ack=_ack)
+            elif ack != "none":
+                # a plain callable returning an awaitable that completes ack_us later
+                def _ack(i=i, style=ack, d=m.get("ack_us", 0)):
+                    log.add("ack", i, style)
+                    return awaitable(style, d, lambda: log.add("ack.end", i))
                 wire = AckableMessage(data=data, ack=_ack)
             else:
                 wire = data
